@@ -255,8 +255,10 @@ func serpb(c px.Context, o serOpts, arg sx.Sexp) core.Result {
 	if sent, rd := rec.events()[0].sexp().String(), back.events()[0].sexp().String(); sent != rd {
 		return fail("serpb-events-differ", "sent "+sent+" delivered "+rd)
 	}
-	// a Sensitive is equal to nothing, itself included; without rich data the rich leaves are carried as strings
-	if hasSensitive(arg) || (!o.rich && hasRich(arg)) {
+	// a Sensitive is equal to nothing, itself included; without rich data only Data is promised to arrive as it was:
+	// what the serializer does with the rest depends on what the consumer says it can do (a consumer that declines
+	// Binary or complex keys gets their text), which is the serializer's contract, not the transport's
+	if hasSensitive(arg) || (!o.rich && (hasRich(arg) || hasBin(arg) || hasNonStringKey(arg))) {
 		return core.Result{Out: "-", Pred: "ok", NonTrivial: true, Tags: tags}
 	}
 	if got == nil || !got.Equals(w, nil) || !w.Equals(got, nil) || rvalStr(got) != rvalStr(w) {
